@@ -77,3 +77,100 @@ Section Race.
     rewrite refusal_test, Ha. cbn [negb]. rewrite andb_false_r, Hc. apply Nat.ltb_lt in Hq. rewrite Hq. eauto.
   Qed.
 End Race.
+
+(* ---------- every listener in the table of a reachable state is open ---------- *)
+Definition vm_open (t : vtable) : Prop := forall n b, vget n t = Some b -> vb_closed b = false.
+
+Section Open.
+  Variable hash : bytes -> Z -> bytes.
+
+  Lemma run_add_open s rid k name sk eff :
+    sys_tables_ok s -> vm_open (s_vm s) -> vm_open (s_vm (fst (sys_run_add s rid k name sk eff))).
+  Proof.
+    intros Hok Ho. destruct (run_add_cases s rid k name sk eff Hok) as [[_ E]|[_ [E _]]]; rewrite E; [|exact Ho].
+    cbn [fst]. unfold reg_state. destruct (is_hole k); [exact Ho|]. cbn [s_vm]. intros n b G.
+    destruct (v_bytes_dec n name) as [->|Hne].
+    - rewrite vget_cons_same in G. now injection G as <-.
+    - rewrite vget_cons_other in G by assumption. now apply (Ho n).
+  Qed.
+
+  Lemma open_step s op :
+    sys_inv s -> vm_open (s_vm s) -> vm_open (s_vm (fst (sys_step hash s op))).
+  Proof.
+    intros [Hnd Hok] Ho.
+    assert (Hlogout : forall rid, vm_open (s_vm (sys_logout s rid))).
+    { intros rid n b' G. unfold sys_logout in G. cbn [s_vm] in G.
+      assert (Hl : forall name o k, In (name, (o, k)) (s_pxys s) ->
+                     vget name (s_pxys s) = Some (o, k) \/ vget name (s_pxys s) = None)
+        by (intros; left; now apply In_vget_nodup).
+      destruct (close_owned_spec rid (s_pxys s) s Hok Hl) as (_ & _ & Hok' & _ & _ & Hn).
+      destruct (Hn n) as [Hn1 Hn2]. destruct (owned_in (s_pxys s) rid n).
+      - specialize (Hok' n). rewrite (Hn1 eq_refl) in Hok'. destruct Hok'; congruence.
+      - destruct (Hn2 eq_refl) as (_ & Hv & _). rewrite Hv in G. now apply (Ho n). }
+    destruct op as [rid user|rid|rid k name sk allow|rid k name sk allow|rid name|rid name ts sign ue uc cid eok|rid name ts sign pre sid dl|sid|name];
+      cbn [sys_step].
+    - cbn [fst s_vm]. apply Hlogout.
+    - cbn [fst]. apply Hlogout.
+    - destruct (vget rid (s_users s)) as [u|]; [|exact Ho].
+      destruct (vget name (s_pxys s)); [exact Ho|]. now apply run_add_open.
+    - destruct (vget rid (s_users s)) as [u|]; [|exact Ho]. now apply run_add_open.
+    - destruct (vget name (s_pxys s)) as [[o' k]|]; [destruct (bytes_eqb o' rid)|]; cbn [fst]; try exact Ho.
+      destruct (close_one_lookups s name k) as (_ & _ & _ & Hoth & Hk). intros n b G.
+      destruct (v_bytes_dec n name) as [->|Hne].
+      + destruct (is_hole k); destruct Hk as [Hk1 Hk2]; [rewrite Hk2 in G; now apply (Ho name)|congruence].
+      + destruct (Hoth n Hne) as (_ & Hv & _). rewrite Hv in G. now apply (Ho n).
+    - destruct (sys_resolve_user s rid) as [user|]; [|exact Ho].
+      destruct (vm_new_conn hash (s_vm s) name cid ts sign ue uc user eok) as [vm' v] eqn:Ev. cbn [fst s_vm].
+      destruct v; try (apply vm_new_conn_not_ok_same in Ev; [subst vm'; exact Ho|discriminate]).
+      apply vm_new_conn_ok_inv in Ev as (b & G & _ & _ & _ & ->). intros n b' G'.
+      destruct (v_bytes_dec n name) as [->|Hne].
+      + rewrite vget_vset_same in G'. now injection G' as <-.
+      + rewrite vget_vset_other in G' by assumption. now apply (Ho n).
+    - destruct (vget rid (s_users s)) as [user|]; [|exact Ho].
+      destruct (vnh_handle_visitor _ _ _ _ _ _ _ _ _) as [nh' v]. exact Ho.
+    - exact Ho.
+    - unfold vm_accept. destruct (vget name (s_vm s)) as [b|] eqn:G; [|exact Ho].
+      destruct (vb_queue b) as [|c0 q]; [exact Ho|]. cbn [fst s_vm]. intros n b' G'.
+      destruct (v_bytes_dec n name) as [->|Hne].
+      + rewrite vget_vset_same in G'. injection G' as <-. cbn. now apply (Ho name).
+      + rewrite vget_vset_other in G' by assumption. now apply (Ho n).
+  Qed.
+
+  Lemma open_run : forall h s, sys_inv s -> (exists sp, sys_abs s sp) -> vm_open (s_vm s) ->
+    vm_open (s_vm (fold_left (fun s op => fst (sys_step hash s op)) h s)).
+  Proof.
+    induction h as [|op h IH]; intros s Hi [sp Ha] Ho; cbn [fold_left]; [exact Ho|].
+    destruct (step_refines hash s sp op Hi Ha) as [Hi' Ha']. apply IH; [exact Hi'|eauto|now apply open_step].
+  Qed.
+
+  Theorem reachable_listeners_open h : vm_open (s_vm (sys_state hash h)).
+  Proof.
+    unfold sys_state. destruct (init_refines) as [Hi Ha]. apply open_run; [exact Hi|eauto|].
+    intros n b G. discriminate.
+  Qed.
+
+  (* sufficiency over histories: a live stcp/sudp registration admits every visitor that holds its key and whose
+     user is allowed, as long as the owner's accept queue is not full - whatever happened before, including refused
+     duplicate registrations of the same name *)
+  Theorem key_and_user_admitted_live h name r rid user ts ue uc cid :
+    sp_reg (spec_of h) name = Some r -> is_hole (vr_kind r) = false ->
+    spec_visitor_user (spec_of h) rid = Some user ->
+    In user (vr_allow r) \/ In vstar (vr_allow r) ->
+    (forall b, vget name (s_vm (sys_state hash h)) = Some b -> (length (vb_queue b) < vq_cap)%nat) ->
+    exists s', sys_step hash (sys_state hash h) (SVisitorConn rid name ts (hash (vr_sk r) ts) ue uc cid true) = (s', OVis VOk).
+  Proof.
+    intros Hr Hk Hu Ha Hq. destruct (state_refines_spec hash h) as [[Hnd Hok] [Hau Har]].
+    pose proof (reachable_listeners_open h) as Hopen.
+    rewrite <- Har in Hr. unfold sys_reg in Hr. pose proof (Hok name) as Hn.
+    destruct (vget name (s_pxys (sys_state hash h))) as [[o k]|]; [|discriminate].
+    destruct (is_hole k) eqn:Ek.
+    - destruct (vget name (nh_cfgs (s_nh (sys_state hash h)))); [|discriminate]. injection Hr as <-. cbn in Hk. congruence.
+    - destruct (vget name (s_vm (sys_state hash h))) as [b|] eqn:G; [|discriminate]. injection Hr as <-.
+      cbn [vr_sk vr_allow] in *. cbn [sys_step]. rewrite resolve_user_spec, Hu.
+      destruct (key_and_user_admitted_stream hash (s_vm (sys_state hash h)) name b cid ts ue uc user G) as [t' E].
+      + now apply vallowed_spec.
+      + now apply (Hopen name).
+      + now apply Hq.
+      + rewrite E. eauto.
+  Qed.
+End Open.
